@@ -233,6 +233,17 @@ pub fn make_case<W: WorldDriver>(spec: &PropSpec, hdr: &[u8], recs: &[Rec]) -> C
     let narch = W::archs().len();
     let mut ops = spec.profile().decode_all(recs);
     if let Some((arch, k)) = PREFILL.with(|p| p.get()) {
+        // every second prefilled case (a header bit, so that deleting ops while shrinking does not
+        // toggle it) drains the large archetype completely through `ecs_iter_destroy!` a third of
+        // the way in and creates in it again: "a large archetype becomes empty and is refilled" is
+        // a state no random destroy sequence reaches (storage that is released or rebuilt when an
+        // archetype empties would lose its slot generations / shrink its capacity there)
+        // (mid-size prefills only: with ~100 000 tracked entities one drain costs many seconds)
+        if k <= 16 && hdr.first().map_or(false, |b| b & 0x10 != 0) {
+            let at = ops.len() / 3;
+            ops.insert(at, Op::Burst { sim: 0, arch, path: 0, n: 24 });
+            ops.insert(at, Op::IterDestroy { sim: 0, arch, variant: hdr[0] >> 5, seed: 0x5555 });
+        }
         ops.insert(0, Op::Prefill { sim: 0, arch, k });
     }
     Case { world: W::NAME.to_string(), header: Header::decode(hdr, narch), ops }
